@@ -25,6 +25,7 @@ func init() {
 			"(R15.5) the errno mapping covers every experimental/sys.Errno constant; (R15.7) after an entry was removed from the descriptor table no failing return is feasible (callee failure conditions are excluded by dominating checks). " +
 			"NOT decided: absence of every Go run-time error in the 46 functions (nil dereference, division, type assertion).",
 		Rules: []core.Rule{
+			{ID: "R15.9", Template: "T-CONSULT", Text: "the file system of a descriptor entry is used only once the entry is known to be a directory (IsDir edge, nil test, or successful path resolution)", Min: 2},
 			{ID: "R15.8", Template: "error discipline", Text: "the result of every guest-memory write of a WASI function is checked (genuine defects found and fixed: sock_accept, sock_recv, sock_send)", Min: 1},
 			{ID: "R15.1", Template: "T-WHOCALLS", Text: "no direct access to MemoryInstance.Buffer in imports/", Min: 1},
 			{ID: "R15.2", Template: "error discipline", Text: "uses of a Memory.Read result are dominated by the ok branch", Min: 10},
@@ -35,6 +36,7 @@ func init() {
 		},
 		Run: runC15,
 		Controls: []core.Control{
+			{Name: "atpath-preopen-before-isdir", File: "imports/wasi_snapshot_preview1/fs.go", Old: "\t} else if isDir, errno := f.File.IsDir(); errno != 0 {\n\t\treturn nil, \"\", errno\n", New: "\t} else if f.IsPreopen && fd > 2 {\n\t\treturn f.FS, pathName, 0\n\t} else if isDir, errno := f.File.IsDir(); errno != 0 {\n\t\treturn nil, \"\", errno\n", Rule: "R15.9", Substr: "atPath"},
 			{Name: "sock-accept-result-unchecked", File: "imports/wasi_snapshot_preview1/sock.go", Old: "\t\tif !mem.WriteUint32Le(resultFd, uint32(connFD)) {\n\t\t\t// The guest cannot learn the descriptor: do not leave the connection in its table.\n\t\t\t_ = fsc.CloseFile(connFD)\n\t\t\treturn sys.EFAULT\n\t\t}\n", New: "\t\tmem.WriteUint32Le(resultFd, uint32(connFD))\n", Rule: "R15.8", Substr: "sockAcceptFn"},
 			{Name: "direct-buffer-access", File: "imports/wasi_snapshot_preview1/random.go", Old: "\trandomBytes, ok := mod.Memory().Read(buf, bufLen)\n\tif !ok { // out-of-range\n\t\treturn sys.EFAULT\n\t}\n", New: "\tmemBuf := mod.(*wasm.ModuleInstance).MemoryInstance.Buffer\n\tok := uint64(buf)+uint64(bufLen) <= uint64(len(memBuf))\n\tif !ok { // out-of-range\n\t\treturn sys.EFAULT\n\t}\n\trandomBytes := memBuf[buf : buf+bufLen]\n", Rule: "R15.1", Substr: "Buffer"},
 			{Name: "use-before-ok", File: "imports/wasi_snapshot_preview1/fs.go", Old: "\tbuf, ok := mod.Memory().Read(resultFdstat, 24)\n\tif !ok {\n\t\treturn experimentalsys.EFAULT\n\t}\n", New: "\tbuf, ok := mod.Memory().Read(resultFdstat, 24)\n\tbuf[0] = 0\n\tif !ok {\n\t\treturn experimentalsys.EFAULT\n\t}\n", Rule: "R15.2", Substr: "fdFdstatGetFn"},
@@ -99,6 +101,7 @@ func guestDerived(v ssa.Value, depth int, seen map[ssa.Value]bool) bool {
 
 func runC15(c *core.Ctx) {
 	checkWasiOutputsChecked(c)
+	checkFSOnlyOfDirectories(c)
 	c.SSA()
 	wasiRel := "imports/wasi_snapshot_preview1"
 	fns := moduleFns(c, wasiRel)
